@@ -28,6 +28,7 @@ import (
 )
 
 const kInsGoodRefused = "C19/install/doc/good-install-refused"
+const kInsManifestSigned = "C19/install/manifest-signed-flag-differs-from-verifier-outcome"
 const kInsTooLarge = "C19/install/doc/download-larger-than-declared-size-installed"
 
 // ---- case description -----------------------------------------------------------
@@ -523,7 +524,7 @@ func runInstall(c installCase) (facts []opFacts, out []verdict) {
 				bad(kInsManifestDigest, fmt.Sprintf("manifest digest %q, artifact bytes %s", entry.Digest, wantDigest))
 			}
 			if entryAfter && entry.Signed != accepted {
-				bad(kInsManifestDigest, fmt.Sprintf("manifest signed=%v but accepting verifier call=%v", entry.Signed, accepted))
+				bad(kInsManifestSigned, fmt.Sprintf("manifest signed=%v but accepting verifier call=%v", entry.Signed, accepted))
 			}
 		}
 		// (e) staging is removed on every exit path (install.go, downloadVerifyAndInstall)
@@ -550,13 +551,13 @@ func runInstall(c installCase) (facts []opFacts, out []verdict) {
 func genInstallOp(t *rapid.T, i int) installOp {
 	l := fmt.Sprintf("op%d/", i)
 	op := installOp{}
-	op.Fetch = pick(t, l+"fetch", "ok", 12, "rt-error", 1, "status-500", 1, "status-404", 1, "trunc-err", 2, "trunc-eof", 2, "extra", 1, "flip", 2)
+	op.Fetch = pick(t, l+"fetch", "ok", 14, "rt-error", 1, "status-500", 1, "status-404", 1, "trunc-err", 2, "trunc-eof", 2, "extra", 1, "flip", 2)
 	op.FetchK = rapid.IntRange(0, 999).Draw(t, l+"fetchk")
 	op.Verifier = pick(t, l+"verifier", "accept", 5, "reject", 3, "unsigned-ok", 2)
 	op.AllowUnsigned = rapid.IntRange(0, 2).Draw(t, l+"allowunsigned") == 0
 	op.Ctx = rapid.IntRange(0, 63).Draw(t, l+"ctx")
-	op.DryRun = rapid.IntRange(0, 19).Draw(t, l+"dryrun") == 0
-	op.Pin = pick(t, l+"pin", "", 6, "1.0.0", 2, "v1.0.0", 2, "2.0.0", 1, "not-a-version", 1)
+	op.DryRun = rapid.IntRange(0, 39).Draw(t, l+"dryrun") == 0
+	op.Pin = pick(t, l+"pin", "", 14, "1.0.0", 3, "v1.0.0", 3, "2.0.0", 1, "not-a-version", 1)
 	return op
 }
 
@@ -576,6 +577,11 @@ func genInstallCase(t *rapid.T) installCase {
 	n := pick2int(t, "nops", 1, 6, 2, 3, 3, 1)
 	for i := 0; i < n; i++ {
 		c.Ops = append(c.Ops, genInstallOp(t, i))
+	}
+	// bias of multi-operation cases: the first operation downloads fine but is
+	// refused by the verifier, so that later ones find the artifact in the cache
+	if n > 1 && drawBool(t, "cache-primer") {
+		c.Ops[0].Fetch, c.Ops[0].Verifier, c.Ops[0].AllowUnsigned, c.Ops[0].DryRun, c.Ops[0].Pin = "ok", "reject", false, false, ""
 	}
 	return c
 }
